@@ -13,11 +13,15 @@ resolver's output `R`:
   kind by kind the merged components are spelled out (`mergedFields`, `mergedValues`, `mergedMembers`, `mergedInputs`,
   `mergedImplements`, `mergedDirs` of `Lemmas/DeclsComposed.lean`);
 * nothing is invented: every alias of the file stems from a source definition;
-* the order of the source items is immaterial for the meaning of every alias (`C10_from_sources_perm`);
+* the order of the source items is immaterial for the meaning of every alias, for permutations that keep the relative
+  order of the extensions of each kind and name (`C10_from_sources_perm`, hypothesis `KeepsExtOrder`);
 * the resolvers file has one resolver per field of every object type of the MERGED schema.
 
 Side condition, as in `Props/C10Closed.lean`: `DocOK c R` (checked schema + the configuration conditions on scalar
-texts). Which part of it the schema check discharges is `Props/C10ComposedChecked.lean`.
+texts) — a HYPOTHESIS here; which part of it the schema check discharges is `Props/C10ComposedChecked.lean`. Further
+hypotheses: `kindFits` (in-namespace forms), `ResolversOK` (resolver `Args` / `Result`), arguments of defined scalar / enum /
+input-object type (`C10_resolver_args_from_sources`), distinct type names (`C10_sources_print_ok_iff`), a `schema {…}`
+definition among the sources (`C10_sources_schema_metadata`). OPEN — carried by K/O only: see the end of `Props/C10.lean`.
 Proofs: `Lemmas/DeclsComposed.lean`, `Lemmas/DeclsComposedPerm.lean`.
 -/
 import NitroVerif.Props.C10Closed
